@@ -109,6 +109,80 @@ var kindsOf = map[string][]string{
 func init() {
 	jobs["seq"] = jobSeq
 	jobs["que"] = jobQue
+	jobs["map"] = jobMap
+	kindsOf["map"] = []string{"hashmap", "treemap", "linkedhashmap", "redblacktree", "avltree", "btree", "hashbidimap", "treebidimap"}
+}
+
+type mapCfg struct {
+	cmp, vcmp string
+	m, nk, nv int
+}
+
+// bounded universes of the map tours (quick, thorough)
+func mapTourCfgs(kind string, quick bool) []mapCfg {
+	q := func(a, b int) int {
+		if quick {
+			return a
+		}
+		return b
+	}
+	switch kind {
+	case "redblacktree", "avltree":
+		return []mapCfg{{"nat", "", 0, q(7, 9), 0}, {"rev", "", 0, q(5, 7), 0}, {"half", "", 0, q(7, 9), 0}}
+	case "btree":
+		return []mapCfg{{"nat", "", 3, q(8, 10), 0}, {"nat", "", 4, q(7, 9), 0}, {"nat", "", 5, q(8, 9), 0},
+			{"nat", "", 6, q(8, 9), 0}, {"rev", "", 3, q(5, 7), 0}, {"half", "", 3, q(7, 9), 0}, {"half", "", 4, q(7, 9), 0}}
+	case "treemap":
+		return []mapCfg{{"nat", "", 0, q(5, 7), 0}, {"rev", "", 0, q(4, 6), 0}, {"half", "", 0, q(5, 7), 0}}
+	case "hashmap", "linkedhashmap":
+		return []mapCfg{{"", "", 0, q(4, 5), 0}}
+	case "hashbidimap":
+		return []mapCfg{{"", "", 0, 3, 3}, {"", "", 0, q(2, 4), q(4, 3)}}
+	case "treebidimap":
+		return []mapCfg{{"nat", "nat", 0, 3, 3}, {"half", "nat", 0, 4, 3}, {"nat", "half", 0, 3, 4}, {"rev", "rev", 0, q(2, 4), 3}}
+	}
+	return nil
+}
+
+func jobMap(j *jobCtx) {
+	ctr := 0
+	for _, k := range kindsOf["map"] {
+		if !j.want(k) {
+			continue
+		}
+		for _, c := range mapTourCfgs(k, j.quick()) {
+			u := &mapUniverse{kind: k, cmp: c.cmp, vcmp: c.vcmp, m: c.m, nk: c.nk, nv: c.nv, shape: true, ctr: &ctr}
+			s, e := tour(u, 1<<22)
+			j.states += s
+			j.edges += e
+		}
+		// random histories in larger universes
+		n, steps := 3, 150
+		if !j.quick() {
+			n, steps = 30, 250
+		}
+		for _, pat := range []string{"random", "asc", "desc", "zigzag", "churn"} {
+			for _, cmp := range []string{"nat", "rev", "half"} {
+				ms := []int{0}
+				if k == "btree" {
+					ms = []int{3, 5, 8}
+					if !j.quick() {
+						ms = []int{3, 4, 5, 6, 7, 8, 16}
+					}
+				}
+				for _, m := range ms {
+					u := &mapRandom{kind: k, cmp: cmp, vcmp: "nat", m: m, nk: 20, nv: 6, shape: true, pattern: pat}
+					if k == "treebidimap" && cmp == "rev" {
+						u.vcmp = "half"
+					}
+					randomRun(u, j.r, n, steps)
+				}
+				if !mapSorted(k) {
+					break
+				}
+			}
+		}
+	}
 }
 
 func jobSeq(j *jobCtx) {
